@@ -150,3 +150,14 @@ Theorem C09_source_decryptAssertions_is_the_model :
     = PVal (norm_res (decrypt_assertions (chain parse rsa_oaep rsa_pkcs1 gcm_open cbc_decrypt sha1_hex get_cert) el)).
 Proof. exact G_decryptAssertions_is_model. Qed.
 Print Assumptions C09_source_decryptAssertions_is_the_model.
+
+(* the composed source pipeline (P_Pipeline.v: ValidateEncodedResponse over the translated parseResponse, decryptAssertions,
+   getDecryptCert, DecryptBytes, validation stage) never panics, for every input, configuration and oracle behaviour *)
+From V Require Import Keys Deflate GenPreludeK GenPreludeDeflate GenFuncs GenTree GenKeys GenDeflate P_Pipeline.
+Theorem C09_source_inbound_pipeline_never_panics :
+  forall inflate read_from_bytes rt_ok dsig rsa_oaep rsa_pkcs1 gcm_open cbc_decrypt (sha1_hex : string -> string) parse_cert cfg kc venc now enc,
+    exists r,
+      G_ValidateEncodedResponse (src_parse inflate read_from_bytes rt_ok cfg) dsig
+        (src_decrypt_all inflate read_from_bytes rt_ok rsa_oaep rsa_pkcs1 gcm_open cbc_decrypt parse_cert cfg kc venc now) cfg now enc = PVal r.
+Proof. exact source_inbound_pipeline_never_panics. Qed.
+Print Assumptions C09_source_inbound_pipeline_never_panics.
